@@ -92,4 +92,6 @@ def run(ctx):
         ctx.ob("auto_drop|only-proofs", cs == ["FUNGIBLE_PROOF_BLUEPRINT", "NON_FUNGIBLE_PROOF_BLUEPRINT"], f"blueprints auto-dropped: {cs}", F.fns[ad[0]].loc())
     else:
         ctx.ob("anchor|auto_drop", False, f"candidates: {ad}")
+    import c10
+    c10.check_lock_unlock_delta(ctx)
     ctx.assume("'take never yields more than put' and worktop assertion semantics are value-level and not decided")
